@@ -432,19 +432,44 @@ def rule_OW4(ctx, mod, E):
                   'first (the value left by the previous run is used)',
                   ctx.where(mod, fn), sample={'builder': fn.name,
                                               'what': what})
-    td = E.members['to_dict']
+    to_dict_tol(ctx, mod, E.members['to_dict'], 'C12.OW4.tol')
+    ctx.floor('C12.OW4.tol', 4)
+
+
+def to_dict_tol(ctx, mod, td, rule):
+    """The solver options written by to_dict carry the FORWARD tolerance:
+    `solver_opts['tol']` is a scratch entry that the last solver call left
+    (tol_gradient after gradient / jvec / jtvec)."""
     tols = [s for s in td.body if isinstance(s, ast.Assign) and ast.unparse(
         s.targets[0]).replace('"', "'") == "self.solver_opts['tol']"]
     outs = [s for s in td.body if isinstance(s, ast.Assign) and isinstance(
         s.value, ast.Dict) and any(isinstance(k, ast.Constant) and
                                    k.value == '__class__'
                                    for k in s.value.keys)]
-    ok = len(tols) == 1 and ast.unparse(tols[0].value) == 'self.tol_forward' \
-        and outs and tols[0].lineno < outs[0].lineno
-    ctx.check('C12.OW4.tol', 'Simulation.to_dict', ok,
-              'to_dict serialises solver_opts without restoring the forward '
-              'tolerance first', ctx.where(mod, td))
-    ctx.floor('C12.OW4.tol', 4)
+    ok = False
+    if outs:
+        d = outs[0].value
+        emitted = [v for k, v in zip(d.keys, d.values) if isinstance(
+            k, ast.Constant) and k.value == 'solver_opts']
+        if len(emitted) == 1:
+            v = emitted[0]
+            if ast.unparse(v) == 'self.solver_opts':
+                # the shared dict itself: restored just before
+                ok = len(tols) == 1 and ast.unparse(tols[0].value) == \
+                    'self.tol_forward' and tols[0].lineno < outs[0].lineno
+            elif isinstance(v, ast.Dict):
+                # a merged literal: the LAST tol entry wins
+                last = None
+                for k, x in zip(v.keys, v.values):
+                    if k is None and ast.unparse(x) == 'self.solver_opts':
+                        last = 'scratch'
+                    elif isinstance(k, ast.Constant) and k.value == 'tol':
+                        last = ast.unparse(x)
+                ok = last == 'self.tol_forward'
+    ctx.check(rule, 'Simulation.to_dict', ok,
+              'to_dict serialises solver_opts with the scratch tolerance of '
+              'the last solver call instead of the forward tolerance',
+              ctx.where(mod, td))
 
 
 def rule_OW5(ctx, mod, E):
@@ -679,3 +704,8 @@ def run(ctx):
     rule_OW6(ctx, mod, E)
     rule_OW6_serial(ctx, mod, E)
     rule_OW7(ctx, mod, E)
+    # the transient hand-over attribute of to_file is consumed by to_dict
+    # (a leftover makes every later copy()/to_dict(what) use the old `what`)
+    from . import c17
+    from ..core.report import Renamed
+    c17.rule_oneshot(Renamed(ctx, lambda r: 'C12.OW5.oneshot'))
